@@ -65,10 +65,22 @@ def max_state(rng, dims, cplx):
 
 
 def steps(rng):
-    n = int(rng.integers(1, 5))
-    if rng.random() < 0.5:
+    """step-size lists: constant, independent, and lists over a small palette (values recur: alternating, piecewise constant,
+    returning to the first value after a different one) - per-step quantities cached across steps show only on the latter"""
+    n = int(rng.integers(1, 7))
+    k = int(rng.integers(0, 5))
+    if k == 0:
         return [float(rng.uniform(0.05, 0.5))] * n
-    return [float(rng.uniform(0.05, 0.5)) for _ in range(n)]
+    if k == 1:
+        return [float(rng.uniform(0.05, 0.5)) for _ in range(n)]
+    pal = [float(rng.uniform(0.05, 0.5)) for _ in range(2 if k < 4 else 3)]
+    if k == 2:  # alternating a, b, a, b, ...
+        return [pal[i % 2] for i in range(n)]
+    if k == 3:  # piecewise constant, coming back to the first value at the end
+        n = max(n, 3)
+        cut = int(rng.integers(1, n - 1))
+        return [pal[0]] * cut + [pal[1]] * (n - 1 - cut) + [pal[0]]
+    return [pal[int(rng.integers(0, len(pal)))] for _ in range(n)]
 
 
 def setting(rng):
@@ -170,9 +182,23 @@ def w_adaptive(ctx, rng, idx):
     g = prob_state(rng, dims)
     te = float(rng.uniform(0.2, 1.5))
     sm = ['two_step_Euler', 'trapezoidal_rule'][int(rng.integers(0, 2))]
-    ctx.describe({'op': 'adaptive_step_size', 'dims': dims, 'time_end': te, 'second_method': sm})
-    call('ode.adaptive_step_size', ode.adaptive_step_size, A, x0, g, te, prop=P, refusals=(np.linalg.LinAlgError,), step_size_first=float(10 ** rng.uniform(-2, -1)),
-         second_method=sm, progress=False, solver=['solve', 'lu'][int(rng.integers(0, 2))], error_tol=float(10 ** rng.uniform(-3, -1)))
+    kw = {}
+    u = rng.random()
+    if u < 0.25:  # a short horizon: the caller's first step is longer than the whole interval
+        te = float(10 ** rng.uniform(-3, -1))
+        h0 = te * float(rng.uniform(1.0, 20.0))
+    elif u < 0.4:
+        h0 = te * float(rng.uniform(0.5, 1.5))
+    else:
+        h0 = float(10 ** rng.uniform(-2, -1))
+    if rng.random() < 0.3:
+        kw['step_size_max'] = float(rng.uniform(0.05, 2.0))
+    if rng.random() < 0.3:
+        kw['closeness_min'] = float(10 ** rng.uniform(-6, -2))
+    etol = float(10 ** rng.uniform(-3, -1)) if rng.random() < 0.8 else float(rng.uniform(0.1, 1.0))
+    ctx.describe({'op': 'adaptive_step_size', 'dims': dims, 'time_end': te, 'second_method': sm, 'step_size_first': h0, 'error_tol': etol, 'kw': kw})
+    call('ode.adaptive_step_size', ode.adaptive_step_size, A, x0, g, te, prop=P, refusals=(np.linalg.LinAlgError,), step_size_first=h0,
+         second_method=sm, progress=False, solver=['solve', 'lu'][int(rng.integers(0, 2))], error_tol=etol, **kw)
 
 
 WORKLOADS = [
